@@ -1207,7 +1207,10 @@ func (r *Raft) sendAppendEntries(
 	}
 
 	if !response.Success {
-		follower.nextIndex = response.Index
+		// The answer may be a late one: the follower may have stored entries since it rejected
+		// this request. What it is known to hold is never sent again, otherwise the same entries
+		// would be sent, and acknowledged without any progress, forever.
+		follower.nextIndex = numeric.Max(response.Index, follower.matchIndex+1)
 
 		// Send a snapshot to the follower if the log no longer contains the previous entry.
 		if follower.nextIndex <= r.lastIncludedIndex {
